@@ -103,6 +103,7 @@ func (s *Sim) runW4Log() {
 	ntasks := sc.LogTasks
 	var wg sync.WaitGroup
 	alive := ntasks
+	active := 0 // calls into the loggers in progress
 	for ti := 0; ti < ntasks; ti++ {
 		ti := ti
 		tn := &taskNode{id: ti}
@@ -120,6 +121,26 @@ func (s *Sim) runW4Log() {
 					continue
 				}
 				s.park(tn, "log."+op.Kind, fmt.Sprintf("%d %s", k, op.Name), nil)
+				if op.Kind == "reopen" {
+					// a restart of the logging process: new logger objects over the
+					// same directories (only while no other call is in progress)
+					reopened := false
+					mu.Lock()
+					if active == 0 {
+						in = stslog.NewFileIO(inRoot, nil, mkOpen(), true)
+						out = stslog.NewFileIO(outRoot, nil, mkOpen(), false)
+						reopened = true
+					}
+					mu.Unlock()
+					if reopened {
+						s.stat("log:reopen")
+					}
+					continue
+				}
+				mu.Lock()
+				active++
+				in, out := in, out
+				mu.Unlock()
 				now := time.Now()
 				h := &logHistOp{op: op, day0: dayOf(now)}
 				mu.Lock()
@@ -205,6 +226,7 @@ func (s *Sim) runW4Log() {
 				mu.Lock()
 				seq++
 				h.ret = seq
+				active--
 				mu.Unlock()
 			}
 			mu.Lock()
@@ -384,6 +406,11 @@ func genLogScenario(seed uint64) *Scenario {
 	var written []LogOp
 	for i := 0; i < n; i++ {
 		op := LogOp{Task: g.n(sc.LogTasks)}
+		if i > 0 && g.pct(8) {
+			op.Kind = "reopen" // the logging process is restarted (same day or later)
+			sc.LogOps = append(sc.LogOps, op)
+			continue
+		}
 		switch g.n(10) {
 		case 0, 1, 2, 3:
 			op.Kind = []string{"recv", "recv", "recv", "sent"}[g.n(4)]
